@@ -16,6 +16,15 @@ var currentMethod core_domain.CodeFunction
 var hasEnterClass = false
 var imports []string
 
+// the type and the method that were open when the body of an anonymous class (new Runnable() { ... }) began: the members of
+// that body are collected aside and dropped, they are no members of the enclosing type
+type enclosingScope struct {
+	node   *core_domain.CodeDataStruct
+	method core_domain.CodeFunction
+}
+
+var enclosingScopes []enclosingScope
+
 func NewJavaIdentifierListener() *JavaIdentifierListener {
 	nodes = nil
 	currentNode = core_domain.NewDataStruct()
@@ -23,6 +32,7 @@ func NewJavaIdentifierListener() *JavaIdentifierListener {
 	imports = nil
 	hasEnterClass = false
 	isOverrideMethod = false
+	enclosingScopes = nil
 	return &JavaIdentifierListener{}
 }
 
@@ -75,7 +85,21 @@ func (s *JavaIdentifierListener) EnterClassDeclaration(ctx *parser.ClassDeclarat
 	currentMethod = core_domain.NewJMethod()
 }
 
+func (s *JavaIdentifierListener) EnterClassBody(ctx *parser.ClassBodyContext) {
+	if _, anonymous := ctx.GetParent().(*parser.ClassCreatorRestContext); anonymous {
+		enclosingScopes = append(enclosingScopes, enclosingScope{currentNode, currentMethod})
+		currentNode = core_domain.NewDataStruct()
+	}
+}
+
 func (s *JavaIdentifierListener) ExitClassBody(ctx *parser.ClassBodyContext) {
+	if _, anonymous := ctx.GetParent().(*parser.ClassCreatorRestContext); anonymous && len(enclosingScopes) > 0 {
+		// back in the member of the enclosing type
+		last := enclosingScopes[len(enclosingScopes)-1]
+		enclosingScopes = enclosingScopes[:len(enclosingScopes)-1]
+		currentNode, currentMethod = last.node, last.method
+		return
+	}
 	hasEnterClass = false
 	if currentNode.NodeName != "" {
 		nodes = append(nodes, *currentNode)
